@@ -408,6 +408,8 @@ func (c *Ctx) applyContract(st *State, fr *Frame, fc *FuncContract, tgt callTarg
 		c.trusted["assumed-contract (dependency): "+tgt.key] = true
 	case fc.NoVerify:
 		c.trusted["assumed-contract (repository function whose body is not verified): "+tgt.key] = true
+	case fc.Abstract:
+		c.trusted["assumed-contract (repository function: postconditions and frame are a ghost-level summary, its body is checked against its call-site clauses only): "+tgt.key] = true
 	default:
 		c.usedContracts[tgt.key+" (verified under "+strings.Join(fc.Props, ",")+")"] = true
 	}
